@@ -4,7 +4,7 @@ worktree and the property's quick check runs with TS_REPO pointing at it.  usage
 Writes seeded/REGRESSION.json."""
 import json, os, subprocess, sys
 V = '/verif'
-WT = '/tmp/rg_wt'
+WT = os.environ.get('RG_WT', '/tmp/rg_wt')
 ids = sys.argv[1:] or sorted(d for d in os.listdir(V + '/seeded') if os.path.exists(V + '/seeded/%s/meta.json' % d))
 out = {}
 for sid in ids:
@@ -27,7 +27,7 @@ for sid in ids:
 subprocess.run(['git', '-C', '/repo', 'worktree', 'remove', '--force', WT], capture_output=True)
 subprocess.run(['git', '-C', '/repo', 'worktree', 'prune'], capture_output=True)
 try:
-    prev = json.load(open(V + '/seeded/REGRESSION.json')) if sys.argv[1:] else {}
+    prev = json.load(open(V + '/seeded/REGRESSION.json'))
 except Exception:
     prev = {}
 prev.update(out)
